@@ -15,6 +15,8 @@ package vault
 // All identifiers are prefixed c12; nothing is written into /repo.
 
 import (
+	"encoding/hex"
+	"encoding/base64"
 	"context"
 	"fmt"
 	"os"
@@ -256,6 +258,72 @@ func (k *c12Case) sealOp(i int, seal bool) string {
 	}
 	k.out.Op(cl, "sealns", vh.HexS(n.path), c12B(seal))
 	return cl
+}
+
+// nsRotate: root-key rotation (new shares, new seal key, new root key) of the separately sealed namespace i through the
+// seal manager (what sys/namespaces/<name>/rotate/root drives), with the namespace's own share. Everything it writes must
+// stay inside the namespace's own storage prefix namespaces/<uuid>/ — the seal material of a namespace is that
+// namespace's. The namespace is sealed and unsealed with the NEW share afterwards by the ordinary sealns ops.
+func (k *c12Case) nsRotate(i int) {
+	n := k.nss[i]
+	if !n.sealable || k.pending[i] {
+		return
+	}
+	for _, m := range k.nss { // every sealable ancestor must be unsealed too
+		if m.sealable && m.ord != i && strings.HasPrefix(n.path, m.path) && k.pending[m.ord] {
+			return
+		}
+	}
+	ctx := k.nsCtx(i)
+	ns := n.obj
+	share, err := hex.DecodeString(n.share)
+	if err != nil {
+		if share, err = base64.StdEncoding.DecodeString(n.share); err != nil {
+			k.t.Fatalf("share of %s: %v", n.path, err)
+		}
+	}
+	k.p.Tag(0)
+	k.p.StartRecording()
+	res := vh.Catch(func() string {
+		if _, err := k.c.sealManager.InitRotation(ctx, ns, &SealConfig{Type: "shamir", SecretShares: 1, SecretThreshold: 1}, false); err != nil {
+			return "err:init"
+		}
+		rot := k.c.sealManager.RotationConfig(ns.UUID, false)
+		if rot == nil {
+			return "err:noconfig"
+		}
+		rr, err := k.c.sealManager.UpdateRotation(ctx, ns, share, rot.Nonce, false)
+		if err != nil || rr == nil || len(rr.SecretShares) != 1 {
+			return "err:update"
+		}
+		n.share = hex.EncodeToString(rr.SecretShares[0])
+		return "ok"
+	})
+	ops := k.p.StopRecording()
+	k.p.Untag()
+	pre := "namespaces/" + n.uuid + "/"
+	var outside, inside []string
+	seenIn := map[string]bool{}
+	for _, o := range ops {
+		if o.Thread != 0 || (o.Kind != "put" && o.Kind != "delete") {
+			continue
+		}
+		if !strings.HasPrefix(o.Key, pre) {
+			outside = append(outside, o.Kind+":"+o.Key)
+		} else if rel := o.Kind + ":" + o.Key[len(pre):]; !seenIn[rel] {
+			seenIn[rel] = true
+			inside = append(inside, rel)
+		}
+	}
+	sort.Strings(inside)
+	out := "-"
+	viol := ""
+	if len(outside) > 0 {
+		sort.Strings(outside)
+		out = vh.HexS(strings.Join(outside, ","))
+		viol = "!VIOL:the root-key rotation of namespace " + n.path + " wrote outside the namespace's storage prefix: " + strings.Join(outside, ", ") + "#namespace-rotation-wrote-outside-namespace"
+	}
+	k.out.Op(res+"|"+out+"|"+strings.Join(inside, ",")+viol, "nsrotate", vh.HexS(n.path))
 }
 
 func (k *c12Case) setSeal(i int, seal bool) {
@@ -760,6 +828,12 @@ func TestVerifC12Confine(t *testing.T) {
 			if nested && r.Chance(9) {
 				// seal / unseal (own shares) of out/ (2) or out/in/ (3) in any order; refusals are outcomes, not errors
 				k.sealOp(2+r.Intn(2), r.Chance(50))
+			}
+			if nested && r.Chance(4) {
+				k.nsRotate(2 + r.Intn(2))
+			}
+			if sealIdx >= 0 && !sealedNow && r.Chance(3) {
+				k.nsRotate(sealIdx)
 			}
 			if qi == sealAt {
 				k.setSeal(sealIdx, true)
